@@ -644,14 +644,20 @@ bool RegularExpression::matches(const XMLCh* const expression, const XMLSize_t s
 
                 XMLInt32 ch;
 
+                // nextCh() leaves its offset on the low surrogate of a pair,
+                // so remember where this character starts
+                const XMLSize_t charStart = matchStart;
+
                 if (!context.nextCh(ch, matchStart))
                     break;
 
                 if (!range->match(ch))
                     continue;
 
-                if (0 <= (matchEnd = match(&context,fOperations,matchStart)))
+                if (0 <= (matchEnd = match(&context,fOperations,charStart))) {
+                    matchStart = charStart;
                     break;
+                }
             }
         }
         else {
